@@ -160,6 +160,17 @@ def lean_audit(prop_modules, required=None):
         for n in names:
             res[n] = None
         text = out + err
+        if "does not exist" in text or "unknown module" in text.lower() or "object file" in text:
+            # the module itself did not build (one failing declaration is enough for that): elaborate its source with the
+            # audit commands appended, so that the theorems that do check are still told apart from the one(s) that do not
+            # (Lean goes on after a failed declaration; a failed theorem is then an unknown constant for `#print axioms`)
+            body = (LEAN / (mod.replace(".", "/") + ".lean")).read_text()
+            tmp.write_text(body + "\n" + "".join(f"#print axioms {n}\n" for n in names))
+            try:
+                rc, out, err = _run(["lake", "env", "lean", str(tmp)], cwd=LEAN, timeout=1200)
+            finally:
+                tmp.unlink(missing_ok=True)
+            text = out + err
         texts.append(text)
         for m in re.finditer(r"'([^']+)' depends on axioms: \[([^\]]*)\]", text, re.S):
             res[m.group(1)] = sorted(a.strip() for a in m.group(2).replace("\n", " ").split(",") if a.strip())
@@ -292,8 +303,15 @@ def write_evidence(ctx, level="proof", violations=0):
         "wall_s": round(time.time() - ctx.t0, 2),
         "violations": violations,
     }
-    (VERIF / "evidence").mkdir(exist_ok=True)
-    (VERIF / "evidence" / f"{ctx.prop}.json").write_text(json.dumps(ev, indent=1, default=str))
+    # evidence/ describes runs against /repo itself; a run against another tree (tools/seedtest, tools/patchtest: XPM_REPO set)
+    # leaves its record under replays/ (git-ignored) so that it never replaces the record of the real tree
+    if REPO.resolve() == Path("/repo"):
+        out_dir = VERIF / "evidence"
+    else:
+        out_dir = VERIF / "replays" / "evidence-other-tree"
+        ev["repo"] = str(REPO)
+    out_dir.mkdir(parents=True, exist_ok=True)
+    (out_dir / f"{ctx.prop}.json").write_text(json.dumps(ev, indent=1, default=str))
 
 
 def write_replay(ctx, obj, suffix=""):
